@@ -1103,6 +1103,10 @@ func GenCases(p *Profile, seed int64, idx int) []*Case {
 			Debug: g.pct(p.DebugPct), Stats: g.pct(p.StatsPct)}
 		if g.pct(50) {
 			o.File = "f.peg"
+			if g.p.Errors > 0 && g.pct(30) {
+				// names with characters that mean something to fmt, to paths and to the prefix syntax itself
+				o.File = []string{"100%.txt", "a%20b c.peg", "d:e.peg", "%s%d%v", "sub dir/x.peg"}[g.r.Intn(5)]
+			}
 		}
 		if g.pct(p.EntryPct) {
 			o.Entry = fmt.Sprintf("R%d", g.r.Intn(len(rules)+1))
